@@ -31,6 +31,10 @@ pub struct Diag {
     /// an operation was evaluated where its floating-point formula is unstable (cis with a large
     /// positive imaginary part: cos z + i sin z cancels catastrophically)
     pub unstable: bool,
+    /// a proper subexpression evaluated to NaN or an infinity (the whole expression may still be
+    /// finite, e.g. `(0/0)^0 = 1` or `1/(1/0) = 0`): the value then rests on IEEE conventions for
+    /// absorbing non-finite operands, not on the algebra a rewrite has to respect
+    pub nonfinite_intermediate: bool,
 }
 
 /// Leaf perturbation: leaf number k is scaled by 1 + delta·sign(k).
@@ -102,6 +106,15 @@ pub fn function(f: ExpressionFunction, z: Complex64, diag: &mut Diag) -> Complex
 
 /// `None` = incomplete (an unbound variable or unsupplied memory cell occurs in `e`).
 pub fn eval(e: &Expression, env: &Env, perturb: &mut Option<Perturb>, diag: &mut Diag) -> Option<Complex64> {
+    let value = eval_node(e, env, perturb, diag)?;
+    if !finite(value) {
+        // recorded at every level; the caller looks at it only when the root is finite
+        diag.nonfinite_intermediate = true;
+    }
+    Some(value)
+}
+
+fn eval_node(e: &Expression, env: &Env, perturb: &mut Option<Perturb>, diag: &mut Diag) -> Option<Complex64> {
     let scale = |v: Complex64, p: &mut Option<Perturb>| match p {
         Some(p) => v * p.next(),
         None => v,
@@ -223,7 +236,7 @@ pub fn eval_screened(e: &Expression, env: &Env, max_shift: f64) -> Screen {
     if diag.branch_cut {
         return Screen::BranchCut;
     }
-    if diag.unstable {
+    if diag.unstable || diag.nonfinite_intermediate {
         return Screen::IllConditioned;
     }
     for pattern in 0..6u64 {
